@@ -130,7 +130,8 @@ def gen(tier, seed):
                     continue          # two parameters only: contour needs two free ones
                 seqs = [(q,) for q in names] + [(p, q) for p in ("asym", "profile", "profile_cl", "contour", "cov", "to_file", "band") for q in names]
                 if depth == 3:
-                    rng = np.random.RandomState(seed + hash((kind, backend, setup)) % 1000)
+                    import zlib
+                    rng = np.random.RandomState(seed + zlib.crc32(repr((kind, backend, setup)).encode()) % 1000)          # (not hash(): string hashes differ from process to process)
                     seqs += [tuple(rng.choice(names, 3)) for _ in range(25)]
                 if tier == "quick":
                     pairs_here = kind in ("xy", "custom") and setup in ("free", "fixed", "frozen-after-fit")
@@ -156,6 +157,24 @@ def same_answer(a, b, tol=2e-3):
     except (TypeError, ValueError):
         return a == b
     return a_.shape == b_.shape and bool(np.allclose(a_, b_, rtol=tol, atol=tol / 10, equal_nan=True))
+
+
+def same_profile(a, b):
+    """two scans of the same profile: the scan points are placed from the (re-estimated, C07) parameter uncertainty, so they may sit at slightly different positions -
+    the answers agree if the second scan lies on the curve of the first one"""
+    try:
+        (x1, y1), (x2, y2) = np.asarray(a, float), np.asarray(b, float)
+    except (TypeError, ValueError):
+        return False
+    if x1.shape != x2.shape or abs((x1[-1] - x1[0]) - (x2[-1] - x2[0])) > 0.05 * abs(x1[-1] - x1[0]):
+        return False
+    inside = (x2 >= x1.min()) & (x2 <= x1.max())
+    if inside.sum() < len(x2) - 2:
+        return False
+    fine = np.linspace(x1.min(), x1.max(), 400)
+    curve = np.interp(fine, x1, y1)            # (piecewise linear through 7 points of a parabola: compared with the matching tolerance)
+    span = float(np.max(y1) - np.min(y1)) or 1.0
+    return bool(np.all(np.abs(y2[inside] - np.interp(x2[inside], x1, y1)) <= 0.06 * span))
 
 
 @R.oracle("queries_do_not_move_the_fit", gen, obligation="post-fit queries")
@@ -196,6 +215,8 @@ def history(inp):
             return {"got": f"{q} (second time): {type(e2).__name__}: {e2}"[:300], "expected": "an answer", "witness_class": f"{tag}:{q}:raises-second-time"}
         if inp["setup"] == "frozen-after-fit" and q in ("profile", "profile_cl", "contour", "asym", "report", "to_file", "result_dict", "cov", "cor", "hessian", "band"):
             continue        # the first such query re-estimates the uncertainties for the new configuration (stale until then: C03's subject), so the second answer may differ
+        if q in ("profile", "profile_cl") and same_profile(a1, a2):
+            continue
         if not same_answer(a1, a2, 2e-2 if q in ("profile", "profile_cl", "contour") else 2e-3):       # scan grids are placed from the (re-estimated) uncertainties: compared to 2 %
             return {"got": str(a2)[:300], "expected": str(a1)[:300], "witness_class": f"{tag}:{q}:different-answer-second-time"}
     R.cover(inp["kind"] + ":" + inp["backend"])
